@@ -30,8 +30,9 @@ METHODS = ["_read_bytes", "_read_line", "_parse_ubx", "_parse_nmea", "_parse_rtc
 
 
 class IOTr:
-    def __init__(self, mod, node, coqname, siblings):
+    def __init__(self, mod, node, coqname, siblings, prefix="py_io", store_attrs=()):
         self.mod, self.node, self.coqname, self.siblings = mod, node, coqname, siblings
+        self.prefix, self.store_attrs = prefix, set(store_attrs)
         self.n = 0
         a = node.args
         if a.posonlyargs or a.kwonlyargs or a.vararg or a.kwarg or a.defaults:
@@ -76,6 +77,8 @@ class IOTr:
                 return cn, None
         if obj is builtins.EOFError:
             return "EEOF", None
+        if obj in (builtins.OSError, builtins.TimeoutError) and self.prefix == "py_sock":
+            return "EOther", None       # the socket's failures: one exception in this layer
         for fam, modx, cn in (("nmea", nx, "ENmea"), ("rtcm", rx, "ERtcm")):
             if obj in [o for o in vars(modx).values() if isinstance(o, type)]:
                 return cn, (fam, obj)
@@ -105,6 +108,9 @@ class IOTr:
             if isinstance(obj, (set, frozenset)) and all(isinstance(x, bytes) for x in obj):
                 return [], lit(tuple(sorted(obj)))        # only ever used on the right of `in`
             raise Untranslatable("%s: name %s used as a value" % (self.node.name, e.id))
+        if self.is_self(e) and e.attr in self.store_attrs:
+            t = self.fresh()
+            return [(t, IOTerm("io_get %s" % coq_str("self." + e.attr)))], t
         if self.is_self(e):
             return [], "(attr %s)" % coq_str(e.attr)
         if isinstance(e, (ast.Tuple, ast.List)):
@@ -176,6 +182,13 @@ class IOTr:
             if f.attr == "readline" and not e.args:
                 return [(t, IOTerm("io_readline rdl"))], t
             raise Untranslatable("%s: stream method %s" % (self.node.name, f.attr))
+        if isinstance(f, ast.Attribute) and self.is_self(f.value, "_socket") and f.attr == "recv" and len(e.args) == 1 and not e.keywords:
+            b, a = self.E(e.args[0])
+            return b + [(t, IOTerm("io_recv rcv %s" % a))], t
+        if isinstance(f, ast.Name) and f.id == "bytes" and self.global_obj(f) is builtins.bytes and len(e.args) == 1 and not e.keywords \
+                and not isinstance(e.args[0], (ast.Tuple, ast.List)):
+            b, a = self.E(e.args[0])
+            return b + [(t, "g_bytes_conv %s" % a)], t
         # the logger and the error handler
         if isinstance(f, ast.Attribute) and self.is_self(f.value, "_logger") and not e.keywords:
             b, atoms = self.Es(e.args)
@@ -188,7 +201,7 @@ class IOTr:
             b, atoms = self.Es(e.args)
             fuel = " fuel" if self.siblings[f.attr] else ""
             self.calls.append(f.attr)
-            return b + [(t, IOTerm("py_io%s%s %s" % (f.attr, fuel, " ".join(atoms))))], t
+            return b + [(t, IOTerm("%s%s%s %s" % (self.prefix, f.attr, fuel, " ".join(atoms))))], t
         # the protocol parsers: uninterpreted
         name = None
         if self.is_self(f, "parse"):
@@ -284,11 +297,21 @@ class IOTr:
     def stmt(self, s):
         if isinstance(s, ast.Pass):
             return "retIO CNormal"
+        if isinstance(s, ast.AugAssign):
+            tg = s.target
+            if not (isinstance(tg, ast.Name) or (self.is_self(tg) and tg.attr in self.store_attrs)):
+                raise Untranslatable("%s: augmented assignment target" % self.node.name)
+            b, a = self.E(ast.BinOp(left=tg, op=s.op, right=s.value))
+            if isinstance(tg, ast.Name):
+                return self.wrap(b, self.setvar(tg.id, a) + "retIO CNormal")
+            return self.wrap(b, "doM _ <- io_set %s %s;\nretIO CNormal" % (coq_str("self." + tg.attr), a))
         if isinstance(s, ast.Assign):
             if len(s.targets) != 1:
                 raise Untranslatable("%s: chained assignment" % self.node.name)
             tg = s.targets[0]
             b, a = self.E(s.value)
+            if self.is_self(tg) and tg.attr in self.store_attrs:
+                return self.wrap(b, "doM _ <- io_set %s %s;\nretIO CNormal" % (coq_str("self." + tg.attr), a))
             if isinstance(tg, ast.Name):
                 return self.wrap(b, self.setvar(tg.id, a) + "retIO CNormal")
             if isinstance(tg, ast.Tuple) and len(tg.elts) == 2 and all(isinstance(x, ast.Name) for x in tg.elts):
@@ -325,11 +348,16 @@ class IOTr:
                 raise Untranslatable("%s: while/else" % self.node.name)
             # the test and the body of the loop get names of their own, so that theorems can be stated about one iteration
             self.nloops = getattr(self, "nloops", 0) + 1
-            cn, bn = "py_io%s_test%d" % (self.node.name, self.nloops), "py_io%s_body%d" % (self.node.name, self.nloops)
-            fuel = " fuel" if any(isinstance(n, ast.While) for st in s.body for n in ast.walk(st)) else ""
-            self.aux.append("Definition %s%s : IO (world S) bool :=\n%s." % (cn, " (fuel : nat)" if fuel else "", self.C(s.test)))
-            self.aux.append("Definition %s%s : IO (world S) ctl :=\n%s." % (bn, " (fuel : nat)" if fuel else "", self.block(s.body)))
-            return "g_while fuel (%s%s) (%s%s)" % (cn, fuel, bn, fuel)
+            cn, bn = "%s%s_test%d" % (self.prefix, self.node.name, self.nloops), "%s%s_body%d" % (self.prefix, self.node.name, self.nloops)
+            ct, bt = self.C(s.test), self.block(s.body)
+            pdecl = "".join(" (v_%s : gv)" % p for p in self.params)
+            puse = "".join(" v_%s" % p for p in self.params)
+            import re as _re
+            cf = " fuel" if _re.search(r"\bfuel\b", ct) else ""
+            bf = " fuel" if _re.search(r"\bfuel\b", bt) else ""
+            self.aux.append("Definition %s%s%s : IO (world S) bool :=\n%s." % (cn, " (fuel : nat)" if cf else "", pdecl, ct))
+            self.aux.append("Definition %s%s%s : IO (world S) ctl :=\n%s." % (bn, " (fuel : nat)" if bf else "", pdecl, bt))
+            return "g_while fuel (%s%s%s) (%s%s%s)" % (cn, cf, puse, bn, bf, puse)
         if isinstance(s, ast.Try):
             if s.orelse or s.finalbody:
                 raise Untranslatable("%s: try/else/finally" % self.node.name)
@@ -375,6 +403,8 @@ class IOTr:
     def translate(self):
         self.locals = set()
         for n in ast.walk(self.node):
+            if isinstance(n, ast.AugAssign) and isinstance(n.target, ast.Name):
+                self.locals.add(n.target.id)
             for t in getattr(n, "targets", []):
                 for x in ([t] if isinstance(t, ast.Name) else getattr(t, "elts", [])):
                     if isinstance(x, ast.Name):
@@ -384,7 +414,7 @@ class IOTr:
         body = self.block(self.node.body)
         args = "".join(" (v_%s : gv)" % p for p in self.params)
         fuel = " (fuel : nat)" if self.has_loop else ""
-        return "".join(a + "\n\n" for a in self.aux) + "Definition py_io%s%s%s : IO (world S) gv :=\nfn_result (\n%s\n)." % (self.node.name, fuel, args, body)
+        return "".join(a + "\n\n" for a in self.aux) + "Definition %s%s%s%s : IO (world S) gv :=\nfn_result (\n%s\n)." % (self.prefix, self.node.name, fuel, args, body)
 
 
 def atoms_of_tuple(term):
@@ -462,6 +492,39 @@ def generate(report):
                 m, str(e).replace("*", "x").replace('"', "'")[:200], m, STUB_SIG[m],
                 "".join("let _ := %s in " % v for v in STUB_USES[m])))
     out.append("End Gen.\n")
+    # ---- SocketWrapper: the buffer is an attribute the methods assign (kept in the store), recv() is the stream ----
+    out.append("Section GenSock.\nContext {S : Type}.\nVariable rcv : S -> result bytes * S.\nVariable attr : string -> gv.\n")
+    try:
+        import pyubx2.socket_wrapper as sw
+        stree = ast.parse(open(sw.__file__, encoding="utf-8").read())
+        scls = next((n for n in stree.body if isinstance(n, ast.ClassDef) and n.name == "SocketWrapper"), None)
+    except Exception:  # pylint: disable=broad-except
+        sw, scls = None, None
+    ssib = {}
+    for m, sig in (("_recv", ""), ("read", "(fuel : nat) (v_num : gv)"), ("readline", "(fuel : nat)")):
+        try:
+            if scls is None:
+                raise Untranslatable("no class SocketWrapper")
+            node = next((n for n in scls.body if isinstance(n, ast.FunctionDef) and n.name == m), None)
+            if node is None:
+                raise Untranslatable("no method %s" % m)
+            tr = IOTr(sw, node, "py_sock" + m, ssib, prefix="py_sock", store_attrs=("_buffer",))
+            text = tr.translate()
+            bad = [c for c in tr.calls if "py_sock" + c not in done]
+            if bad:
+                raise Untranslatable("%s calls %s, which was not translated" % (m, bad))
+            out.append("(* SocketWrapper.%s *)\n%s\n" % (m, text))
+            done.append("py_sock" + m)
+            ssib[m] = tr.has_loop or any(ssib.get(c) for c in tr.calls)
+        except Untranslatable as e:
+            failed["py_sock" + m] = str(e)
+            ssib[m] = "fuel" in sig
+            if m == "read":
+                out.append("Definition py_sockread_test1 (v_num : gv) : IO (world S) bool := raiseIO EOther.\n"
+                           "Definition py_sockread_body1 (v_num : gv) : IO (world S) ctl := let _ := rcv in let _ := attr in raiseIO EOther.\n")
+            out.append("(* SocketWrapper.%s: NOT TRANSLATED (%s) *)\nDefinition py_sock%s %s : IO (world S) gv := let _ := rcv in let _ := attr in raiseIO EOther.\n" % (
+                m, str(e).replace("*", "x").replace('"', "'")[:200], m, sig))
+    out.append("End GenSock.\n")
     out.append("Definition translated_io : list string := [%s]." % "; ".join(coq_str(c) for c in done))
     report["py2coq_io"] = {"translated": done, "untranslated": failed}
     return "\n".join(out) + "\n"
